@@ -1,4 +1,338 @@
-import IwModel.Model.KvApi
-/-! # C09 — iterating while the store changes (theorems follow) -/
+import IwModel.Lemmas.KvCur
+/-! # C09 — iterating while the store changes
+
+Property theorems only; helper lemmas live in `IwModel/Lemmas/KvCur.lean`. The model is the node
+layer of `Model/Kv.lean`: the chain `d.nodes`, the table of open cursors `d.curs`, the mutations
+`put / del / curSet / curDel` with the cursor fix-ups of `_sblk_addkv*`, `_sblk_rmkv`,
+`_lx_split_addkv` and `_lx_del_sblk_lw` (`fixAdd / fixRm / fixSplit / fixFront / fixDelNode`).
+
+Vocabulary (defined in `Lemmas/KvCur.lean`):
+* `CurOk ns p` — position `p` is usable on chain `ns` (`.at i j _`: slot `j` of node `i` exists;
+  the pseudo positions head / tail / void always);
+* `aheadN ns p` — the records NEXT has yet to return from `p`, in order: a suffix of `flatten ns`
+  (from the slot itself when `skip_next > 0`, from the following slot otherwise);
+* `aheadP ns p` — the records PREV has yet to return (it returns them from the back): a prefix;
+* `CursVia fix d d'` — the cursor table of `d'` is that of `d` with every position sent through
+  `fix`; so `fix p` is where *any* cursor standing at `p` stands afterwards;
+* `InsRel P ns ns' p p'` — `p'` is usable on `ns'` and, the records failing `P` (the newborn) filtered
+  out, `aheadN/aheadP` of `(ns', p')` equal those of `(ns, p)`;
+* `DelRel P ns ns' p p'` — `p'` is usable on `ns'` and `aheadN/aheadP` of `(ns', p')` are those of
+  `(ns, p)` with the records failing `P` (the removed one) filtered out;
+* `keyNe k r` — `r.1 ≠ k`; `setVal k v` — rewrite the value of key `k`.
+
+Known corner (finding F38): a cursor parked with `skip_next = -1` on the slot before a removed last
+slot counts a record inserted right after that slot as "ahead" although its key may sort before the
+key the cursor had reached. The statements below say what is true of the code as it is: nothing
+that was ahead is lost or repeated, only the newborn may be extra; `f38_witness` exhibits the
+corner on the model. -/
 namespace IwModel.C09
+open IwModel Kv
+
+section
+variable {K V : Type} {gt : K → K → Bool}
+
+/-! ### 1. moving on from any position -/
+
+/-- NEXT from any usable position: when it succeeds the cursor stands on a usable position whose
+    record is the first of what lay ahead, and the rest lies ahead of the new position; when it
+    reports not-found nothing lay ahead. -/
+theorem next_spec (d : Db K V) (hok : NodesOk d.nodes) (p : CPos) (hp : CurOk d.nodes p) :
+    (∀ p', curNext d p = (p', true) →
+      ∃ r, curRec d p' = some r ∧ aheadN d.nodes p = r :: aheadN d.nodes p' ∧ CurOk d.nodes p') ∧
+    (∀ p', curNext d p = (p', false) → aheadN d.nodes p = []) := by
+  have h := next_step d hok p hp
+  refine ⟨fun p' e => ?_, fun p' e => ?_⟩
+  · have := h.1 (by rw [e]); rwa [e] at this
+  · exact h.2 (by rw [e])
+
+/-- PREV, symmetric: it returns the last record of `aheadP`. -/
+theorem prev_spec (d : Db K V) (hok : NodesOk d.nodes) (p : CPos) (hp : CurOk d.nodes p) :
+    (∀ p', curPrev d p = (p', true) →
+      ∃ r, curRec d p' = some r ∧ aheadP d.nodes p = aheadP d.nodes p' ++ [r] ∧ CurOk d.nodes p') ∧
+    (∀ p', curPrev d p = (p', false) → aheadP d.nodes p = []) := by
+  have h := prev_step d hok p hp
+  refine ⟨fun p' e => ?_, fun p' e => ?_⟩
+  · have := h.1 (by rw [e]); rwa [e] at this
+  · exact h.2 (by rw [e])
+
+/-- Continuing a scan from any usable position: the successive NEXT calls return exactly `aheadN`,
+    in order, each record once, then not-found; and `aheadN` is strictly descending in key order
+    (so: in key order, without repetition). -/
+theorem scan_from (d : Db K V) (inv : NodeInv gt d.nodes) (p : CPos) (hp : CurOk d.nodes p) :
+    scan d (curNext d) ((aheadN d.nodes p).length + 1) p = ((aheadN d.nodes p).map some, true) ∧
+    Desc gt (aheadN d.nodes p) :=
+  ⟨scan_from_next d inv.1 _ p hp (Nat.lt_succ_self _), aheadN_desc inv.2 p⟩
+
+/-- … and backwards with PREV: exactly `aheadP`, from the back. -/
+theorem scan_back_from (d : Db K V) (inv : NodeInv gt d.nodes) (p : CPos) (hp : CurOk d.nodes p) :
+    scan d (curPrev d) ((aheadP d.nodes p).length + 1) p = ((aheadP d.nodes p).reverse.map some, true) ∧
+    Desc gt (aheadP d.nodes p) :=
+  ⟨scan_from_prev d inv.1 _ p hp (Nat.lt_succ_self _), aheadP_desc inv.2 p⟩
+
+/-- `aheadN`/`aheadP` are the suffix / prefix of the live records at the flat index of the slot,
+    with the flat index spelled out as a sum of node sizes. -/
+theorem ahead_at (ns : List (Node K V)) (i j : Nat) (s : Int) :
+    let f := ((ns.take i).map (·.recs.length)).sum + j
+    aheadN ns (.at i j s) = (if s > 0 then (flatten ns).drop f else (flatten ns).drop (f + 1)) ∧
+    aheadP ns (.at i j s) = (if s < 0 then (flatten ns).take (f + 1) else (flatten ns).take f) := by
+  simp only [aheadN, aheadP, flatIdx_eq_sum, and_self]
+
+/-! ### 2. every open cursor survives every mutation -/
+
+/-- Inserting a key the store does not hold (`iwkv_put`, any level drawn, with or without
+    `IWKV_NO_OVERWRITE`), through every branch of `_lx_addkv` — plain insertion into the node,
+    "add to upper", a fresh node at the front, a fresh node after a full node, the split at the
+    pivot with the record going left or right: for every position `p` a cursor may stand on,
+    `fix p` (where that cursor stands afterwards) is usable, and what lies ahead of it — the newborn
+    filtered out — is exactly what lay ahead before, in both directions. Nothing is lost, nothing is
+    repeated, order is kept; only the newborn may have been added. -/
+theorem put_new_keeps_cursors [DecidableEq K] (st : StrictTotal gt) (d : Db K V) (k : K) (v : V) (noOverwrite : Bool)
+    (lvl : Nat) (hk : ∀ r ∈ flatten d.nodes, r.1 ≠ k) :
+    ∃ fix, CursVia fix d (put gt d k v noOverwrite lvl).1 ∧
+      ∀ p, CurOk d.nodes p →
+        CurOk (put gt d k v noOverwrite lvl).1.nodes (fix p) ∧
+        (aheadN (put gt d k v noOverwrite lvl).1.nodes (fix p)).filter (keyNe k) = aheadN d.nodes p ∧
+        (aheadP (put gt d k v noOverwrite lvl).1.nodes (fix p)).filter (keyNe k) = aheadP d.nodes p :=
+  put_new_cursors st d k v noOverwrite lvl hk
+
+/-- Overwriting the value of a key the store holds: no cursor moves; what lies ahead of any usable
+    position is unchanged except for the value of that key. -/
+theorem put_overwrite_keeps_cursors [DecidableEq K] (st : StrictTotal gt) (d : Db K V) (inv : NodeInv gt d.nodes)
+    (k : K) (v : V) (lvl : Nat) {av : V} (hm : (k, av) ∈ flatten d.nodes) :
+    (put gt d k v false lvl).1.curs = d.curs ∧
+    ∀ p, CurOk d.nodes p → CurOk (put gt d k v false lvl).1.nodes p ∧
+      aheadN (put gt d k v false lvl).1.nodes p = (aheadN d.nodes p).map (setVal k v) ∧
+      aheadP (put gt d k v false lvl).1.nodes p = (aheadP d.nodes p).map (setVal k v) :=
+  put_overwrite_cursors st d inv k v lvl hm
+
+/-- `iwkv_cursor_set` through any cursor: likewise. -/
+theorem cursor_set_keeps_cursors [DecidableEq K] (st : StrictTotal gt) (d : Db K V) (inv : NodeInv gt d.nodes)
+    (p0 : CPos) (v : V) {k : K} {ov : V} (h : curRec d p0 = some (k, ov)) :
+    (curSet d p0 v).curs = d.curs ∧
+    ∀ p, CurOk d.nodes p → CurOk (curSet d p0 v).nodes p ∧
+      aheadN (curSet d p0 v).nodes p = (aheadN d.nodes p).map (setVal k v) ∧
+      aheadP (curSet d p0 v).nodes p = (aheadP d.nodes p).map (setVal k v) :=
+  curSet_cursors st d inv p0 v h
+
+/-- `iwkv_del` of any key (present or not; slot removal with the skip marks of `_sblk_rmkv`, or
+    removal of the whole node with the three cursor cases of `_lx_del_sblk_lw`): for every position
+    `p`, `fix p` is usable (possibly a pseudo position) and what lies ahead of it is exactly what lay
+    ahead of `p` minus the record with key `k` — every record that was ahead and was not deleted is
+    still ahead, in order, the deleted one is not, nothing else appears; in both directions. -/
+theorem del_keeps_cursors [DecidableEq K] (st : StrictTotal gt) (d : Db K V) (inv : NodeInv gt d.nodes) (k : K) :
+    ∃ fix, CursVia fix d (del gt d k).1 ∧
+      ∀ p, CurOk d.nodes p →
+        CurOk (del gt d k).1.nodes (fix p) ∧
+        aheadN (del gt d k).1.nodes (fix p) = (aheadN d.nodes p).filter (keyNe k) ∧
+        aheadP (del gt d k).1.nodes (fix p) = (aheadP d.nodes p).filter (keyNe k) :=
+  del_cursors st d inv k
+
+/-- `iwkv_cursor_del` through a cursor standing at `p0` on a record with key `k`: the same for every
+    open cursor — including the deleting cursor itself (`p = p0`), which is what "deleting the record
+    under a cursor and moving on visits each remaining record exactly once" needs: by `scan_from`,
+    the NEXT calls that follow return `(aheadN d.nodes p0).filter (keyNe k)`. -/
+theorem cursor_del_keeps_cursors [DecidableEq K] (st : StrictTotal gt) (d : Db K V) (inv : NodeInv gt d.nodes)
+    (p0 : CPos) {k : K} {ov : V} (h : curRec d p0 = some (k, ov)) :
+    ∃ fix, CursVia fix d (curDel d p0) ∧
+      ∀ p, CurOk d.nodes p →
+        CurOk (curDel d p0).nodes (fix p) ∧
+        aheadN (curDel d p0).nodes (fix p) = (aheadN d.nodes p).filter (keyNe k) ∧
+        aheadP (curDel d p0).nodes (fix p) = (aheadP d.nodes p).filter (keyNe k) :=
+  curDel_cursors st d inv p0 h
+
+/-- what `CursVia` means for a cursor id: its new position is `fix` of its old one -/
+theorem cursVia_lookup {fix : CPos → CPos} {d d' : Db K V} (h : CursVia fix d d') (c : Nat) :
+    curPos d' c = (curPos d c).map fix :=
+  cursVia_curPos h c
+
+/-! ### 3. histories -/
+
+/-- Any history of mutations — `iwkv_put`, `iwkv_del`, `iwkv_cursor_set` / `iwkv_cursor_del` through
+    any cursor id (the tracked cursor `c` included), and arbitrary repositionings (NEXT, PREV, anything
+    else) of the *other* cursors — run from a valid chain on which cursor `c` stands at a usable
+    position `p`.
+    At the end the chain is valid, cursor `c` stands at a usable position `p'`, and for what NEXT
+    has yet to return (`aheadN`) as well as for what PREV has yet to return (`aheadP`):
+
+    * `surv`: the keys that were ahead and were not removed by the history (`runDel`: the keys of
+      the `del`s and the keys under the deleting cursors) are still ahead, in the same relative order;
+    * `orig`: whatever is ahead now, except keys the history put (`runPut`), was ahead before, in the
+      same relative order — nothing else appears;
+    * `same`: the records ahead whose key the history did not touch are exactly the same, values
+      included;
+    * a key the history removed and did not put again afterwards (`runDead`) is not ahead (it is not
+      in the store);
+    * what is ahead is strictly descending in key order, so by `scan_from` continuing the scan
+      returns it in key order, each record once. -/
+theorem history_keeps_cursor [DecidableEq K] (st : StrictTotal gt) (d : Db K V) (inv : NodeInv gt d.nodes)
+    (c : Nat) (p : CPos) (hc : curPos d c = some p) (hp : CurOk d.nodes p) (ms : List (Mut K V))
+    (hmv : ∀ m ∈ ms, repositions c m = false) :
+    let d' := runMut gt d ms
+    NodeInv gt d'.nodes ∧
+    ∃ p', curPos d' c = some p' ∧ CurOk d'.nodes p' ∧
+      StepFacts (aheadN d.nodes p) (aheadN d'.nodes p') (runDel gt d ms) (runPut ms) (runTouch gt d ms) ∧
+      StepFacts (aheadP d.nodes p) (aheadP d'.nodes p') (runDel gt d ms) (runPut ms) (runTouch gt d ms) ∧
+      (∀ k ∈ runDead gt d ms, ∀ r, (r ∈ aheadN d'.nodes p' ∨ r ∈ aheadP d'.nodes p') → r.1 ≠ k) ∧
+      Desc gt (aheadN d'.nodes p') ∧ Desc gt (aheadP d'.nodes p') := by
+  intro d'
+  obtain ⟨inv', p', hc', hp', hN, hP⟩ := run_tracks st c ms d p inv hc hp hmv
+  refine ⟨inv', p', hc', hp', hN, hP, ?_, aheadN_desc inv'.2 p', aheadP_desc inv'.2 p'⟩
+  intro k hk r hr
+  refine run_dead st ms d inv k hk r ?_
+  rcases hr with hr | hr
+  · exact mem_flat_of_ahead.1 hr
+  · exact mem_flat_of_ahead.2 hr
+
+/-- The same, spelled out for the forward direction without the `StepFacts` bundle. -/
+theorem history_forward [DecidableEq K] (st : StrictTotal gt) (d : Db K V) (inv : NodeInv gt d.nodes)
+    (c : Nat) (p : CPos) (hc : curPos d c = some p) (hp : CurOk d.nodes p) (ms : List (Mut K V))
+    (hmv : ∀ m ∈ ms, repositions c m = false) :
+    ∃ p', curPos (runMut gt d ms) c = some p' ∧ CurOk (runMut gt d ms).nodes p' ∧
+      (((aheadN d.nodes p).map (·.1)).filter (fun k => decide (k ∉ runDel gt d ms))).Sublist
+        ((aheadN (runMut gt d ms).nodes p').map (·.1)) ∧
+      (((aheadN (runMut gt d ms).nodes p').map (·.1)).filter (fun k => decide (k ∉ runPut ms))).Sublist
+        ((aheadN d.nodes p).map (·.1)) ∧
+      (aheadN (runMut gt d ms).nodes p').filter (fun r => decide (r.1 ∉ runTouch gt d ms)) =
+        (aheadN d.nodes p).filter (fun r => decide (r.1 ∉ runTouch gt d ms)) ∧
+      (∀ k ∈ runDead gt d ms, ∀ r ∈ aheadN (runMut gt d ms).nodes p', r.1 ≠ k) ∧
+      scan (runMut gt d ms) (curNext (runMut gt d ms)) ((aheadN (runMut gt d ms).nodes p').length + 1) p' =
+        ((aheadN (runMut gt d ms).nodes p').map some, true) := by
+  obtain ⟨inv', p', hc', hp', hN, _, hdead, _, _⟩ := history_keeps_cursor st d inv c p hc hp ms hmv
+  exact ⟨p', hc', hp', hN.surv, hN.orig, hN.same, fun k hk r hr => hdead k hk r (Or.inl hr),
+    (scan_from (runMut gt d ms) inv' p' hp').1⟩
+
+/-- The property as worded: cursor `c` continues its scan with NEXT calls interleaved, in any way,
+    with mutations through the database and through any cursor (itself included) and with
+    arbitrary moves of the other cursors. Let `R = runRet gt c d ms` be the records handed to it
+    along the way and `aheadN d'.nodes p'` what the NEXT calls after the history will still return
+    (`scan_from`). Then for everything the scan returns, `R ++ aheadN d'.nodes p'`, against what lay
+    ahead when it started:
+
+    * `surv`: every key that lay ahead and was not removed by the history is returned, in the same
+      relative order — nothing that existed throughout is skipped;
+    * `orig`: everything returned, except keys the history put, lay ahead at the start and comes in
+      the same relative order; since what lay ahead is strictly descending, these come in key order
+      and without repetition;
+    * `same`: the returned records whose key the history did not touch are exactly the untouched
+      records that lay ahead, values included;
+    * (`returned_is_live`) each record was live in the store when it was handed over — never a
+      deleted one. -/
+theorem scan_through_history [DecidableEq K] (st : StrictTotal gt) (d : Db K V) (inv : NodeInv gt d.nodes)
+    (c : Nat) (p : CPos) (hc : curPos d c = some p) (hp : CurOk d.nodes p) (ms : List (Mut K V))
+    (hmv : ∀ m ∈ ms, repositions c m = true → m = .next c) :
+    let d' := runMut gt d ms
+    NodeInv gt d'.nodes ∧
+    ∃ p', curPos d' c = some p' ∧ CurOk d'.nodes p' ∧
+      StepFacts (aheadN d.nodes p) (runRet gt c d ms ++ aheadN d'.nodes p')
+        (runDel gt d ms) (runPut ms) (runTouch gt d ms) ∧
+      scan d' (curNext d') ((aheadN d'.nodes p').length + 1) p' = ((aheadN d'.nodes p').map some, true) ∧
+      Desc gt (aheadN d.nodes p) := by
+  intro d'
+  obtain ⟨inv', p', hc', hp', hN⟩ := run_scanN st c ms d p inv hc hp hmv
+  exact ⟨inv', p', hc', hp', hN, (scan_from d' inv' p' hp').1, aheadN_desc inv.2 p⟩
+
+/-- … and backwards: cursor `c` continues with PREV calls; what it is handed, `R`, it gets from the
+    back of `aheadP`, so the whole backward scan returns `(aheadP d'.nodes p' ++ R.reverse).reverse`. -/
+theorem scan_back_through_history [DecidableEq K] (st : StrictTotal gt) (d : Db K V) (inv : NodeInv gt d.nodes)
+    (c : Nat) (p : CPos) (hc : curPos d c = some p) (hp : CurOk d.nodes p) (ms : List (Mut K V))
+    (hmv : ∀ m ∈ ms, repositions c m = true → m = .prev c) :
+    let d' := runMut gt d ms
+    NodeInv gt d'.nodes ∧
+    ∃ p', curPos d' c = some p' ∧ CurOk d'.nodes p' ∧
+      StepFacts (aheadP d.nodes p) (aheadP d'.nodes p' ++ (runRet gt c d ms).reverse)
+        (runDel gt d ms) (runPut ms) (runTouch gt d ms) ∧
+      scan d' (curPrev d') ((aheadP d'.nodes p').length + 1) p' = ((aheadP d'.nodes p').reverse.map some, true) ∧
+      Desc gt (aheadP d.nodes p) := by
+  intro d'
+  obtain ⟨inv', p', hc', hp', hP⟩ := run_scanP st c ms d p inv hc hp hmv
+  exact ⟨inv', p', hc', hp', hP, (scan_back_from d' inv' p' hp').1, aheadP_desc inv.2 p⟩
+
+/-- whatever a NEXT / PREV hands to a cursor is a live record of the store at that moment -/
+theorem returned_is_live (c : Nat) (d : Db K V) (m : Mut K V) (r : K × V) (h : retOf c d m = some r) :
+    r ∈ flatten d.nodes :=
+  ret_live h
+
+/-- Consequence spelled out: a record that lay ahead of the cursor and whose key no mutation of the
+    history touched is returned by the scan exactly once, and the untouched records come in strictly
+    descending key order. -/
+theorem untouched_once [DecidableEq K] (st : StrictTotal gt) (d : Db K V) (inv : NodeInv gt d.nodes)
+    (c : Nat) (p : CPos) (hc : curPos d c = some p) (hp : CurOk d.nodes p) (ms : List (Mut K V))
+    (hmv : ∀ m ∈ ms, repositions c m = true → m = .next c) :
+    ∃ p', curPos (runMut gt d ms) c = some p' ∧
+      (runRet gt c d ms ++ aheadN (runMut gt d ms).nodes p').filter (keyNotIn (runTouch gt d ms)) =
+        (aheadN d.nodes p).filter (keyNotIn (runTouch gt d ms)) ∧
+      Desc gt ((runRet gt c d ms ++ aheadN (runMut gt d ms).nodes p').filter (keyNotIn (runTouch gt d ms))) ∧
+      ∀ r ∈ aheadN d.nodes p, r.1 ∉ runTouch gt d ms →
+        ((runRet gt c d ms ++ aheadN (runMut gt d ms).nodes p').map (·.1)).count r.1 = 1 := by
+  obtain ⟨_, p', hc', _, hN, _, hd⟩ := scan_through_history st d inv c p hc hp ms hmv
+  refine ⟨p', hc', hN.same, ?_, ?_⟩
+  · rw [hN.same]; exact List.Pairwise.sublist List.filter_sublist hd
+  · intro r hr ht
+    have hnd : (((aheadN d.nodes p).filter (keyNotIn (runTouch gt d ms))).map (·.1)).Nodup := by
+      refine List.Pairwise.map _ ?_ (List.Pairwise.sublist List.filter_sublist hd)
+      intro a b hab e
+      exact st.ne_of_gt hab e
+    have hP : notIn (runTouch gt d ms) r.1 = true := by simpa [notIn] using ht
+    have hP' : keyNotIn (runTouch gt d ms) r = true := by simpa [keyNotIn] using ht
+    have hmem : r.1 ∈ ((aheadN d.nodes p).filter (keyNotIn (runTouch gt d ms))).map (·.1) :=
+      List.mem_map.2 ⟨r, List.mem_filter.2 ⟨hr, hP'⟩, rfl⟩
+    have h1 := hnd.count (a := r.1)
+    rw [if_pos hmem, ← hN.same, map_fst_filter, List.count_filter hP] at h1
+    exact h1
+
+end
+
+/-! ### the hypotheses are satisfiable; the model computes -/
+
+/-- NEXT from the cursor of the example store returns the one record ahead of it. -/
+example : ∃ r, curRec exDb9 (.at 1 0 0) = some r ∧
+    aheadN exDb9.nodes (.at 0 1 0) = r :: aheadN exDb9.nodes (.at 1 0 0) := by
+  obtain ⟨r, h1, h2, _⟩ := (next_spec exDb9 exDb9_inv.1 _ exDb9_curOk).1 (.at 1 0 0) rfl
+  exact ⟨r, h1, h2⟩
+
+/-- a history through the database and through both cursors, on the example store -/
+example : ∃ p', curPos (runMut natGt exDb9 [.put 8 80 0, .del 7, .cdel 1, .put 3 30 0, .cset 1 41, .move 2 (.at 0 0 0)]) 1 = some p' ∧
+    CurOk (runMut natGt exDb9 [.put 8 80 0, .del 7, .cdel 1, .put 3 30 0, .cset 1 41, .move 2 (.at 0 0 0)]).nodes p' := by
+  obtain ⟨p', h1, h2, _⟩ := history_forward natGt_strictTotal exDb9 exDb9_inv 1 _ rfl exDb9_curOk
+    [.put 8 80 0, .del 7, .cdel 1, .put 3 30 0, .cset 1 41, .move 2 (.at 0 0 0)]
+    (by decide)
+  exact ⟨p', h1, h2⟩
+
+example : let d' := runMut natGt exDb9 [.put 8 80 0, .del 7, .cdel 1, .put 3 30 0, .cset 1 41, .move 2 (.at 0 0 0)]
+    curPos d' 1 = some (.at 0 0 (-1)) ∧ aheadN d'.nodes (.at 0 0 (-1)) = [(4, 40), (3, 30)] ∧
+    runDel natGt exDb9 [.put 8 80 0, .del 7, .cdel 1, .put 3 30 0, .cset 1 41, .move 2 (.at 0 0 0)] = [7, 8] := by
+  decide
+
+/-- cursor 1 scans on with NEXT while records are put and deleted around it, through the database,
+    through itself and while cursor 2 is moved about -/
+example : ∃ p', curPos (runMut natGt exDb9 [.put 8 80 0, .put 5 50 0, .next 1, .del 4, .cdel 1, .put 3 30 0, .put 6 60 0,
+      .next 1, .move 2 (.at 0 0 0)]) 1 = some p' := by
+  obtain ⟨_, p', h1, _⟩ := scan_through_history natGt_strictTotal exDb9 exDb9_inv 1 _ rfl exDb9_curOk
+    [.put 8 80 0, .put 5 50 0, .next 1, .del 4, .cdel 1, .put 3 30 0, .put 6 60 0, .next 1, .move 2 (.at 0 0 0)]
+    (by
+      intro m hm
+      simp only [List.mem_cons, List.not_mem_nil, or_false] at hm
+      rcases hm with rfl | rfl | rfl | rfl | rfl | rfl | rfl | rfl | rfl <;> simp [repositions])
+  exact ⟨p', h1⟩
+
+example : let ms : List (Mut Nat Nat) := [.put 8 80 0, .put 5 50 0, .next 1, .del 4, .cdel 1, .put 3 30 0, .put 6 60 0,
+      .next 1, .move 2 (.at 0 0 0)]
+    runRet natGt 1 exDb9 ms = [(5, 50), (6, 60)] ∧ curPos (runMut natGt exDb9 ms) 1 = some (.at 0 3 0) ∧
+    aheadN (runMut natGt exDb9 ms).nodes (.at 0 3 0) = [(3, 30)] ∧ aheadN exDb9.nodes (.at 0 1 0) = [(4, 40)] ∧
+    runDel natGt exDb9 ms = [4, 5] := by
+  decide
+
+/-- Finding F38 on the model: cursor 1 stands on key 7 and deletes it (last slot of its node, so
+    it is parked on the slot of key 9 with `skip_next = -1`); key 8 is then inserted; the next NEXT
+    of cursor 1 returns 8 — a key above the key 7 the scan had already reached. The theorems above
+    hold all the same: nothing that was ahead (`(4, 40)`) is lost, only the newborn is extra. -/
+theorem f38_witness :
+    let d1 := curDel exDb9 (.at 0 1 0)
+    let d2 := (put natGt d1 8 80 false 0).1
+    curRec exDb9 (.at 0 1 0) = some (7, 70) ∧
+    curPos d1 1 = some (.at 0 0 (-1)) ∧ aheadN d1.nodes (.at 0 0 (-1)) = [(4, 40)] ∧
+    curPos d2 1 = some (.at 0 0 (-1)) ∧ aheadN d2.nodes (.at 0 0 (-1)) = [(8, 80), (4, 40)] ∧
+    curNext d2 (.at 0 0 (-1)) = (.at 0 1 0, true) ∧ curRec d2 (.at 0 1 0) = some (8, 80) := by
+  decide
+
 end IwModel.C09
